@@ -61,7 +61,19 @@ VARIANTS = [
     V("c16_gcd_all", "M", B, "EngineBuilder.build",
       *replace_expr("math.gcd(*durations)", "max(durations)"),
       note="chunk does not divide the durations", expect_rule="C16.R4"),
+    V("c16_guard_equality_rejected", "M", W, "stan_epochs",
+      *replace_expr("warmup_duration < init_duration + term_duration + base_duration",
+                    "warmup_duration <= init_duration + term_duration + base_duration"),
+      note="the admissible equality case is rejected", expect_rule="C16.R3"),
+    V("c16_guard_base_subtracted", "M", W, "stan_epochs",
+      *replace_expr("warmup_duration < init_duration + term_duration + base_duration",
+                    "warmup_duration < init_duration + term_duration - base_duration"),
+      note="too short warm-ups are accepted", expect_rule="C16.R3"),
     # ---- twins
+    V("c16_t_guard_reordered", "T", W, "stan_epochs",
+      *replace_expr("warmup_duration < init_duration + term_duration + base_duration",
+                    "base_duration + init_duration + term_duration > warmup_duration"),
+      note="same guard"),
     V("c16_t_ge", "T", E, A,
       *replace_expr("config.duration < 1", "not config.duration >= 1"), note="negated spelling"),
     V("c16_t_flat_if", "T", E, A,
